@@ -18,8 +18,10 @@ from scipy import sparse
 from .. import par
 from ..qlib import lib, q_from_float, sha, omul
 
-MCFG = """SPECIFICATION Spec
+MCFG = """CONSTANT PinnedTree = FALSE
+SPECIFICATION Spec
 INVARIANT OutOfDomainRaises
+INVARIANT InterpreterIndependent
 CHECK_DEADLOCK FALSE
 """
 
@@ -390,19 +392,27 @@ def run(ctx, replay=None):
         "unknown variant=/shift= strings of the Schur routines are not in the property's list of enumerated options and are not cells",
     ]
     res = ctx.model("Guards", MCFG, dump=True)
-    cells = [s for s in res["states"] if s["pc"] == "done"]
+    done = [s for s in res["states"] if s["pc"] == "done"]
+    cells = sorted((s for s in done if s["interp"] == "default"), key=lambda s: (s["ep"], s["cls"]))
+    cells_opt = sorted((s for s in done if s["interp"] == "optimized"), key=lambda s: (s["ep"], s["cls"]))
+    if [(c["ep"], c["cls"]) for c in cells] != [(c["ep"], c["cls"]) for c in cells_opt]:
+        raise RuntimeError("Guards.tla: the cells of the two interpreters differ")
     ctx.exhaustive = True
     reps = 3 if thorough else 1
     jobs = [(c["ep"], c["cls"], c["want"], ctx.seed * 1009 + r * 7 + i) for i, c in enumerate(cells) for r in range(reps)]
     outs = par.pmap(_cell, jobs)
-    # the same table under the optimizing interpreter (a guard written as an assert statement is not a guard there)
-    opt = _optimized_outcomes(jobs)
-    for o, go in zip(outs, opt):
+    # the cells of the OPTIMIZED interpreter (Guards.tla: interp = "optimized") are evaluated in a python -O child, with the
+    # same seeds as their default-interpreter twins (a guard written as an assert statement is not a guard there)
+    jobs_opt = [(c["ep"], c["cls"], c["want"], ctx.seed * 1009 + r * 7 + i) for i, c in enumerate(cells_opt) for r in range(reps)]
+    opt = _optimized_outcomes(jobs_opt)
+    for o, jo, go in zip(outs, jobs_opt, opt):
         if go.startswith("harness-error"):
             raise RuntimeError("cannot build cell %s/%s under python -O: %s" % (o["ep"], o["cls"], go))
-        if go != o["got"] and o["got"] == o["want"]:
-            o.update(got=go, err="outcome under python -O (assert statements are not executed)", optimized_interpreter=True)
+        ctx.case((jo[0], jo[1], "optimized"))
+        if go != jo[2] and o["got"] == o["want"]:
+            o.update(want=jo[2], got=go, err="outcome under python -O (assert statements are not executed)", optimized_interpreter=True)
     ctx.notes["cells_under_python_O"] = len(opt)
+    ctx.replays += len(opt)
     for o in outs:
         ctx.replays += 1
         ctx.case((o["ep"], o["cls"]))
